@@ -13,7 +13,7 @@ from mc.run import Result
 from valida.schema import Schema
 
 META = {
-    "rule": "every ordered sequence of 0..n rules (n=2 quick, 3 thorough) from a 10-rule cast-free pool "
+    "rule": "every ordered sequence of 0..n rules (n=2 quick, 4 thorough) from a 10-rule cast-free pool "
             "(path lengths 0,0,1,1,1,1,1,1,2,2,1,1 with ties; '1' vs 1 keys) x 17 documents; a case is one (multiset of rules, "
             "document) with all its permutations; non-trivial = at least two rules and at least one failure "
             "or one untested rule",
@@ -21,7 +21,7 @@ META = {
                     "failures, some line must contain the elements of each failing path in order",
                     "frac_rules_tested is compared for schemas with >= 1 rule only (undefined for the empty schema)"],
     "bounds": {"quick": {"rules_per_schema": "0-2", "documents": 17},
-               "thorough": {"rules_per_schema": "0-3", "documents": 17}},
+               "thorough": {"rules_per_schema": "0-4", "documents": 17}},
 }
 
 L = T.leaf
@@ -49,7 +49,7 @@ DOCS = [
 
 
 def multisets(tier):
-    n = 2 if tier == "quick" else 3
+    n = 2 if tier == "quick" else 4
     out = []
     for k in range(n + 1):
         out.extend(itertools.combinations_with_replacement(range(len(POOL)), k))
